@@ -264,16 +264,19 @@ def run_impl(path, ops):
     except Exception as ex:     # noqa
         return type(ex).__name__, [], None
     cursor = lambda: getattr(getattr(sysg, "_open_fgro", None), "_current_atom", None)   # noqa: E731
-    static = {
-        "cur": cursor(),
-        "templates": [residue_data(t) for t in sysg.different_molecules],
-        "pk": [(k[0], int(k[1]), int(v)) for k, v in sysg.molecules_resname_len_index.items()],
-        "info": [int(x) for x in sysg.molecules_info_ordered_all],
-        "comp": [(str(k), int(v)) for k, v in sysg.composition.items()],
-        "len": len(sysg), "natoms": int(sysg.n_atoms),
-        "box": [float(x) for x in np.array(sysg.box_matrix).ravel()],
-        "title": sysg.comment_line,
-    }
+    try:
+        static = {
+            "cur": cursor(),
+            "templates": [residue_data(t) for t in sysg.different_molecules],
+            "pk": [(k[0], int(k[1]), int(v)) for k, v in sysg.molecules_resname_len_index.items()],
+            "info": [int(x) for x in sysg.molecules_info_ordered_all],
+            "comp": [(str(k), int(v)) for k, v in sysg.composition.items()],
+            "len": len(sysg), "natoms": int(sysg.n_atoms),
+            "box": [float(x) for x in np.array(sysg.box_matrix).ravel()],
+            "title": sysg.comment_line,
+        }
+    except Exception as ex:     # noqa
+        return "views:" + type(ex).__name__, [], None
     out = []
     iters = []
     for op in ops:
@@ -320,13 +323,20 @@ def oracle_case(text, ops, path=None):
     bad = []
     static, hist, sysg = run_impl(path, ops)
     if isinstance(static, str):
-        return ["SystemGro(file) raised %s on a well-formed file" % static], 0
-    # first clause: iteration (a fresh one, after the whole history, and one before it below)
-    it_after = [residue_data(r) for r in sysg]
-    flat = [a for r in it_after for a in r]
-    if flat != ref["records"]:
-        bad.append("concatenation of the iterated residues differs from the file's records "
-                   "(%d atoms iterated, %d in the file)" % (len(flat), len(ref["records"])))
+        return ["SystemGro(file) or one of its views raised %s on a well-formed file" % static], 0
+    # first clause: iteration - on a pristine object, and again on the object the history ran on
+    flat = None
+    for label, make in (("a fresh object", lambda: __import__("gaddlemaps.components", fromlist=["SystemGro"]).SystemGro(path)),
+                        ("the object after the history", lambda: sysg)):
+        try:
+            it_after = [residue_data(r) for r in make()]
+        except Exception as ex:     # noqa
+            return bad + ["iterating %s raised %s" % (label, type(ex).__name__)], 0
+        flat = [a for r in it_after for a in r]
+        if flat != ref["records"]:
+            bad.append("concatenation of the residues iterated on %s differs from the file's records "
+                       "(%d atoms iterated, %d in the file)" % (label, len(flat), len(ref["records"])))
+            break
     starts, p = [], 0
     for r in it_after:
         starts.append(p)
